@@ -333,3 +333,24 @@ Proof.
     right; left. split; [destruct (Qeq_dec py y0); [contradiction|lra]|destruct (Qeq_dec py y1); [contradiction|lra]]. }
   destruct Px as [Px|[[Px Px']|Px]], Py as [Py|[[Py Py']|Py]]; decide_cmp; reflexivity.
 Qed.
+
+(* ------------------------------------------------------------------ copy / restore inside operation sequences *)
+(* copy() carries the whole state (position angle included): operating on the copy is operating on the original *)
+Theorem copy_identity st : t_apply st TCopy = st.
+Proof. reflexivity. Qed.
+Theorem copy_then_ops st ops : t_apply_ops (t_apply st TCopy) ops = t_apply_ops st ops.
+Proof. reflexivity. Qed.
+(* a save / restore keeps the region; it also keeps the angle, except that a restored polygon restarts at theta = 0 *)
+Theorem restore_region st : fst (t_apply st TRestore) = fst st.
+Proof. destruct st as [r th]. destruct r; reflexivity. Qed.
+Theorem restore_then_ops st ops : (forall vs, fst st <> Poly vs) ->
+  t_apply_ops (t_apply st TRestore) ops = t_apply_ops st ops.
+Proof.
+  destruct st as [r th]. destruct r; cbn [fst]; intros H; try reflexivity. exfalso. apply (H vs). reflexivity.
+Qed.
+(* for a polygon the position angle matters: turning to the angle it already has changes nothing when the skip test holds,
+   and the vertices turn by the difference of the angles otherwise *)
+Theorem polygon_rotate_to_is_relative vs th b c s :
+  t_apply (Poly vs, th) (TRotateTo b false c s) =
+  (rotate_to (Poly vs) b false (fst (rot_compose (c, s) (rot_inverse th))) (snd (rot_compose (c, s) (rot_inverse th))), (c, s)).
+Proof. reflexivity. Qed.
